@@ -72,6 +72,29 @@ type State struct {
 	notes    []string
 	trace    []string // branch decisions for reporting
 	steps    int
+	brIdx    []int                   // positions in pc of branch decisions (droppable assumptions)
+	loopMode map[*ssa.BasicBlock]int // isolated loops: how this path treats the loop at that header
+}
+
+const (
+	loopBodyOnly = 1
+	loopExitOnly = 2
+)
+
+// dropBranchConds removes the assumptions that stem from branch decisions (weakening only).
+func (s *State) dropBranchConds() {
+	drop := map[int]bool{}
+	for _, i := range s.brIdx {
+		drop[i] = true
+	}
+	var npc []*T
+	for i, t := range s.pc {
+		if !drop[i] {
+			npc = append(npc, t)
+		}
+	}
+	s.pc = npc
+	s.brIdx = nil
 }
 
 func NewState() *State {
@@ -102,6 +125,13 @@ func (s *State) Clone() *State {
 		n.ghost[k] = v
 	}
 	n.pc = append([]*T(nil), s.pc...)
+	n.brIdx = append([]int(nil), s.brIdx...)
+	if s.loopMode != nil {
+		n.loopMode = make(map[*ssa.BasicBlock]int, len(s.loopMode))
+		for k, v := range s.loopMode {
+			n.loopMode[k] = v
+		}
+	}
 	n.fresh = append([]*T(nil), s.fresh...)
 	n.notes = append([]string(nil), s.notes...)
 	n.trace = append([]string(nil), s.trace...)
@@ -163,12 +193,13 @@ type Ex struct {
 	Paths        int
 	MaxPaths     int
 	MaxInline    int
-	Notes        map[string]bool // assumptions used (unmodelled externs, trusted contracts)
-	Props        map[string]bool // properties whose clauses are to be checked (nil = all)
-	Safety       bool            // generate no-panic obligations
-	FrameChk     bool            // generate store/frame obligations (C18)
-	OnlyKinds    map[string]bool // when set: only obligations of these kinds are generated, the others assumed
-	LevelChk     bool            // ghost frame level tracking (C16)
+	Notes        map[string]bool          // assumptions used (unmodelled externs, trusted contracts)
+	Props        map[string]bool          // properties whose clauses are to be checked (nil = all)
+	Safety       bool                     // generate no-panic obligations
+	FrameChk     bool                     // generate store/frame obligations (C18)
+	isoDone      map[*ssa.BasicBlock]bool // isolated loops whose body has been verified
+	OnlyKinds    map[string]bool          // when set: only obligations of these kinds are generated, the others assumed
+	LevelChk     bool                     // ghost frame level tracking (C16)
 	Top          *Frame
 	covers       int
 	pendingFacts []*T
@@ -255,6 +286,9 @@ func (ex *Ex) revealSet() map[string]bool {
 		}
 		for _, n := range ex.Top.Ctr.Conceal {
 			m["!"+n] = true
+		}
+		for _, n := range ex.Top.Ctr.GroundUnfold {
+			m["~"+n] = true
 		}
 	}
 	return m
@@ -455,6 +489,19 @@ func (ex *Ex) symbolic(name string, t types.Type) Val {
 }
 
 func (ex *Ex) execBlock(fr *Frame, st *State, b, prev *ssa.BasicBlock) {
+	if prev != nil && st.loopMode != nil {
+		if mode, ok := st.loopMode[prev]; ok {
+			if li := fr.Loops[prev]; li != nil && li.Header == prev {
+				inBody := li.Blocks[b] && b != prev
+				if mode == loopExitOnly && inBody {
+					return // the body of an isolated loop is verified once, separately
+				}
+				if mode == loopBodyOnly && !li.Blocks[b] {
+					return // the exit continuation is explored by the arriving paths themselves
+				}
+			}
+		}
+	}
 	if li := fr.Loops[b]; li != nil && prev != nil {
 		if li.Blocks[prev] {
 			ex.loopBackEdge(fr, st, li, b, prev)
@@ -536,6 +583,8 @@ func (ex *Ex) execFrom(fr *Frame, st *State, b *ssa.BasicBlock, i int) {
 				unsupp("path cap %d exceeded in %s", ex.MaxPaths, ex.Top.Name)
 			}
 			st2 := st.Clone()
+			st.brIdx = append(st.brIdx, len(st.pc))
+			st2.brIdx = append(st2.brIdx, len(st2.pc))
 			st.Assume(c)
 			st.trace = append(st.trace, fmt.Sprintf("%s:T", ex.pos(x.Cond.Pos())))
 			st2.Assume(Not(c))
@@ -1749,4 +1798,56 @@ func shortTypeName(t types.Type) string {
 		s = s[i+1:]
 	}
 	return s
+}
+
+// cellsForWrittenSliceParams: a slice parameter whose elements the function writes is kept in a
+// local cell from the start (so that loops havoc it and old(p) / p denote entry / current content).
+func (ex *Ex) cellsForWrittenSliceParams(fn *ssa.Function, st *State) {
+	for _, p := range fn.Params {
+		if _, ok := p.Type().Underlying().(*types.Slice); !ok {
+			continue
+		}
+		written := false
+		if refs := p.Referrers(); refs != nil {
+			for _, r := range *refs {
+				ia, ok := r.(*ssa.IndexAddr)
+				if !ok || ia.X != p {
+					continue
+				}
+				var chase func(v ssa.Value, d int)
+				chase = func(v ssa.Value, d int) {
+					rr := v.Referrers()
+					if rr == nil || d > 4 {
+						return
+					}
+					for _, u := range *rr {
+						switch y := u.(type) {
+						case *ssa.Store:
+							if y.Addr == v {
+								written = true
+							}
+						case *ssa.FieldAddr:
+							chase(y, d+1)
+						case *ssa.IndexAddr:
+							chase(y, d+1)
+						}
+					}
+				}
+				chase(ia, 0)
+			}
+		}
+		if !written {
+			continue
+		}
+		cur, ok := st.regs[p]
+		if !ok || cur.T == nil || cur.Origin != nil || cur.Back != 0 {
+			continue
+		}
+		ex.ncell++
+		id := ex.ncell
+		st.cells[id] = cur.T
+		st.cellType = copyCellTypes(st.cellType)
+		st.cellType[id] = p.Type()
+		st.regs[p] = Val{Origin: &Loc{Cell: id, Pointee: p.Type()}}
+	}
 }
